@@ -126,9 +126,6 @@ pub fn validate(table: &[Ops], t: &Trace) -> Result<(), String> {
         if r.shape != Shape::Bare && !(r.reader.container_ok()) {
             return Err(format!("record {}: reader {:?} needs a bare record", i, r.reader));
         }
-        if t.input.rl == RlMode::Err && r.reader == Reader::IntegerTwin && matches!(r.shape, Shape::Vec | Shape::Append) {
-            return Err(format!("record {}: the integer twin's Vec fast path needs remaining_len; not a reference under RlMode::Err", i));
-        }
     }
     for o in &t.serde {
         let l = table.get(o.lay as usize).ok_or("serde lay out of range")?;
@@ -398,6 +395,8 @@ pub struct PassStats {
     pub eintrs: u32,
     pub steps: u64,
     pub records_read: u32,
+    /// decodes that failed only because the input answered Err to remaining_len() (tolerated)
+    pub rl_err_propagated: u32,
 }
 
 pub struct PassOut {
@@ -536,6 +535,7 @@ pub fn read_pass(table: &[Ops], t: &Trace, w: &Written, fault: &Fault, record: b
             }
         }
         let pos_before = inp.pos;
+        inp.rl_err_returned = false;
         let out = run_reader(rops.dec, r.shape, reader, &mut inp);
         stats.records_read += 1;
         inp.log.ev(ev::REC_READ, i as u64, (out.class() << 32) | inp.pos as u64);
@@ -556,6 +556,14 @@ pub fn read_pass(table: &[Ops], t: &Trace, w: &Written, fault: &Fault, record: b
                         if violation.is_none() && inp.pos != e {
                             violation = Some(viol("D2", i, fault, format!("{}: consumed {} bytes (position {}), the record is {} bytes (ends at {})", desc(), inp.pos - pos_before, inp.pos, e - s, e)));
                         }
+                    }
+                    Outcome::Err(_) if inp.rl_err_returned => {
+                        // narrow relaxation: the input itself answered Err to remaining_len() during this
+                        // decode; a reader that asks and propagates that failure (codec's own Vec<integer>
+                        // fast path does) has not mis-decoded anything. Nothing further is asserted.
+                        inp.log.ev(ev::CHECK_OK, 98, i as u64);
+                        stats.rl_err_propagated += 1;
+                        break;
                     }
                     Outcome::Err(m) => violation = Some(viol(id, i, fault, format!("{}: decode failed ({}) although all {} bytes were deliverable", desc(), m, e - s))),
                     Outcome::Panic(m) => violation = Some(viol(id, i, fault, format!("{}: decode unwound: {}", desc(), m))),
